@@ -690,3 +690,176 @@ Proof.
   destruct (S m Hm) as [m0 [Hin [Hn Hr]]]. exists m0. split; [assumption|]. split; [assumption|].
   exact (Hr st' (extends_refl st')).
 Qed.
+
+(* ------------------------------------------------------------------ ImportString binds the alias *)
+Section Binding.
+  Variable real : string -> string.
+  Variable e : env.
+  (* packages.Package.Imports and go/types report the declared package names *)
+  Hypothesis env_truthful : forall p n, assoc (e_pkg_imports e) p = Some n -> n = real p.
+
+  Definition binding_ok (st : table) : Prop := forall i, In i st -> bound_name real i = i_alias i.
+  Definition pkgs_truthful (t : ty) : Prop := forall pp, In pp (ty_pkgs t) -> snd pp = real (fst pp).
+
+  Lemma tset_In st j i : In i (tset st j) -> i = j \/ In i st.
+  Proof.
+    induction st as [|k r IH]; simpl; [intros [H|[]]; auto|].
+    destruct (String.eqb (i_path j) (i_path k)); simpl.
+    - intros [H|H]; auto.
+    - intros [H|H]; [auto|]. destruct (IH H); auto.
+  Qed.
+
+  Lemma binding_tset st j : binding_ok st -> bound_name real j = i_alias j -> binding_ok (tset st j).
+  Proof. intros H Hj i Hi. apply tset_In in Hi as [->|Hi]; auto. Qed.
+
+  Lemma calc_imports_binding specs :
+    (forall p, In (p, None) specs -> assoc (e_pkg_imports e) p <> None) ->
+    binding_ok (calc_imports e specs).
+  Proof.
+    unfold calc_imports. intros Hk.
+    assert (G : forall l st, (forall p, In (p, None) l -> assoc (e_pkg_imports e) p <> None) ->
+                binding_ok st -> binding_ok (fold_left (fun t s => tset t (calc_import e s)) l st)).
+    { induction l as [|[p rn] r IH]; intros st Hl Hst; simpl; [assumption|].
+      apply IH; [intros q Hq; apply Hl; right; assumption|].
+      apply binding_tset; [assumption|]. unfold calc_import, bound_name.
+      destruct rn as [n|]; [reflexivity|].
+      destruct (assoc (e_pkg_imports e) p) as [n|] eqn:Ea; simpl.
+      - symmetry. apply env_truthful. assumption.
+      - exfalso. apply (Hl p); [left; reflexivity|assumption]. }
+    apply G; [assumption|]. intros i [].
+  Qed.
+
+  Lemma add_named_binding st pkg :
+    binding_ok st -> (forall pp, pkg = Some pp -> snd pp = real (fst pp)) ->
+    binding_ok (snd (add_named e st pkg)).
+  Proof.
+    intros Hst Hp. unfold add_named. destruct pkg as [[p pn]|]; [|assumption].
+    destruct (String.eqb p (e_self e)); [assumption|].
+    specialize (Hp _ eq_refl). simpl in Hp.
+    destruct (tget st p) as [i|] eqn:Eg; cbn [snd].
+    - apply binding_tset; [assumption|]. unfold bound_name. simpl.
+      pose proof (Hst i (tget_In _ _ _ Eg)) as Hi. unfold bound_name in Hi.
+      rewrite (tget_path _ _ _ Eg) in Hi. exact Hi.
+    - destruct (assoc (e_pkg_imports e) p) as [n|] eqn:Ea.
+      + destruct (String.eqb pn "") eqn:En; cbn [snd].
+        * apply binding_tset; [assumption|]. unfold bound_name. simpl. symmetry. auto.
+        * apply binding_tset; [assumption|]. unfold bound_name. simpl.
+          destruct (has_suffix p pn); [symmetry; assumption|reflexivity].
+      + cbn [snd]. apply binding_tset; [assumption|]. unfold bound_name. simpl.
+        destruct (has_suffix p pn); [symmetry; assumption|reflexivity].
+  Qed.
+
+  Definition keeps_binding (t : ty) : Prop :=
+    forall st, binding_ok st -> pkgs_truthful t -> binding_ok (snd (extract e st t)).
+
+  Lemma extract_list_binding : forall l, Forall keeps_binding l ->
+    forall st, binding_ok st -> (forall t, In t l -> pkgs_truthful t) ->
+    binding_ok (snd (extract_list e st l)).
+  Proof.
+    induction l as [|t r IH]; intros Hk st Hst Hp; simpl; [assumption|].
+    inversion Hk as [|? ? Ht Hr]; subst.
+    destruct (extract e st t) as [x s1] eqn:E1. destruct (extract_list e s1 r) as [xr s2] eqn:E2.
+    simpl. pose proof (Ht st Hst (Hp t (or_introl eq_refl))) as H1. rewrite E1 in H1.
+    pose proof (IH Hr s1 H1 (fun u Hu => Hp u (or_intror Hu))) as H2. rewrite E2 in H2. exact H2.
+  Qed.
+
+  Lemma tuple_binding : forall l, Forall (fun p : pinfo * ty => keeps_binding (snd p)) l ->
+    forall st v, binding_ok st -> (forall p, In p l -> pkgs_truthful (snd p)) ->
+    binding_ok (snd (params_from_tuple e st v l)).
+  Proof.
+    induction l as [|[pi t] r IH]; intros Hk st v Hst Hp; simpl; [assumption|].
+    inversion Hk as [|? ? Ht Hr]; subst. simpl in Ht.
+    destruct (extract e st t) as [x s1] eqn:E1. destruct (params_from_tuple e s1 v r) as [xr s2] eqn:E2.
+    simpl. pose proof (Ht st Hst (Hp _ (or_introl eq_refl))) as H1. rewrite E1 in H1.
+    pose proof (IH Hr s1 v H1 (fun u Hu => Hp u (or_intror Hu))) as H2. rewrite E2 in H2. exact H2.
+  Qed.
+
+  Lemma extract_binding : forall t, keeps_binding t.
+  Proof.
+    induction t as [s|pkg n targs IH|y IH|y IH|k y IH|k v IHk IHv|ps v rs IHp IHr] using ty_ind';
+      intros st Hst Hp.
+    - assumption.
+    - rewrite extract_named. destruct (add_named e st pkg) as [q st1] eqn:Ea.
+      destruct (extract_list e st1 targs) as [args st2] eqn:El. simpl.
+      assert (H1 : binding_ok st1).
+      { pose proof (add_named_binding st pkg Hst) as H. rewrite Ea in H. apply H.
+        intros pp ->. apply Hp. simpl. left. reflexivity. }
+      pose proof (extract_list_binding targs IH st1 H1) as H2. rewrite El in H2. apply H2.
+      intros t Ht pp Hpp. apply Hp. simpl. apply in_or_app. right. apply in_flat_map. eauto.
+    - simpl. specialize (IH st Hst Hp). destruct (extract e st y). exact IH.
+    - simpl. specialize (IH st Hst Hp). destruct (extract e st y). exact IH.
+    - simpl. specialize (IH st Hst Hp). destruct (extract e st y). exact IH.
+    - simpl. assert (Hk : pkgs_truthful k) by (intros pp H; apply Hp; simpl; apply in_or_app; auto).
+      assert (Hv : pkgs_truthful v) by (intros pp H; apply Hp; simpl; apply in_or_app; auto).
+      specialize (IHk st Hst Hk). destruct (extract e st k) as [rk s1].
+      specialize (IHv s1 IHk Hv). destruct (extract e s1 v) as [rv s2]. exact IHv.
+    - rewrite extract_func.
+      destruct (params_from_tuple e st v ps) as [xi s1] eqn:E1.
+      destruct (params_from_tuple e s1 false rs) as [xo s2] eqn:E2.
+      destruct (ensure_param_names (map fst ps) (map fst rs)) as [ni no]. simpl.
+      pose proof (tuple_binding ps IHp st v Hst) as H1. rewrite E1 in H1.
+      pose proof (tuple_binding rs IHr s1 false) as H2. rewrite E2 in H2. apply H2.
+      + apply H1. intros p Hin pp Hpp. apply Hp. simpl. apply in_or_app. left. apply in_flat_map. eauto.
+      + intros p Hin pp Hpp. apply Hp. simpl. apply in_or_app. right. apply in_flat_map. eauto.
+  Qed.
+
+  (* through the whole traversal of FindInterface *)
+  Variables priv emb flt : bool.
+
+  Lemma render_methods_binding : forall ms st,
+    binding_ok st -> (forall m, In m ms -> pkgs_truthful (meth_ty m)) ->
+    binding_ok (snd (render_methods e st ms)).
+  Proof.
+    induction ms as [|m r IH]; intros st Hst Hp; simpl; [assumption|].
+    destruct (render_method e st m) as [x s1] eqn:E1.
+    destruct (render_methods e s1 r) as [xs s2] eqn:E2. simpl.
+    assert (H1 : binding_ok s1).
+    { pose proof (extract_binding (meth_ty m) st Hst (Hp m (or_introl eq_refl))) as H.
+      rewrite render_method_func in E1. destruct (extract e st (meth_ty m)) as [y sy].
+      injection E1 as _ <-. exact H. }
+    pose proof (IH s1 H1 (fun u Hu => Hp u (or_intror Hu))) as H2. rewrite E2 in H2. exact H2.
+  Qed.
+
+  Definition tree_truthful (t : tree) : Prop := forall u, In u (tree_types t) -> pkgs_truthful u.
+
+  Lemma to_iface_binding : forall t st,
+    binding_ok st -> tree_truthful t -> binding_ok (snd (to_iface_gen e priv emb flt st t)).
+  Proof.
+    induction t as [self own embs IH] using IFaceEmbProofs.tree_ind'. intros st Hst Ht.
+    rewrite to_iface_unfold.
+    destruct (extract e st self) as [xs st1] eqn:E0.
+    destruct (render_methods e st1 (filter (visible priv) own)) as [own' st2] eqn:E1.
+    assert (H1 : binding_ok st1).
+    { pose proof (extract_binding self st Hst (Ht self (or_introl eq_refl))) as H. rewrite E0 in H. exact H. }
+    assert (H2 : binding_ok st2).
+    { pose proof (render_methods_binding (filter (visible priv) own) st1 H1) as H. rewrite E1 in H.
+      apply H. intros m Hm. apply filter_In in Hm as [Hm _]. apply Ht. simpl. right.
+      apply in_or_app. left. apply in_map_iff. exists m. auto. }
+    destruct (negb emb); [exact H2|].
+    assert (G : forall l acc st0, (forall f, In f l -> In f embs) -> binding_ok st0 ->
+                binding_ok (snd (emb_loop e priv emb flt acc st0 l))).
+    { induction l as [|f r IHl]; intros acc st0 Hsub Hst0; simpl; [assumption|].
+      destruct (to_iface_gen e priv emb flt st0 f) as [ms s1] eqn:Ef.
+      apply IHl; [intros g Hg; apply Hsub; right; assumption|].
+      rewrite Forall_forall in IH.
+      pose proof (IH f (Hsub f (or_introl eq_refl)) st0 Hst0) as H. rewrite Ef in H. apply H.
+      intros u Hu. apply Ht. simpl. right. apply in_or_app. right. apply in_flat_map.
+      exists f. split; [apply Hsub; left; reflexivity|assumption]. }
+    specialize (G embs ([], map rm_name own') st2 (fun f H => H) H2).
+    destruct (emb_loop e priv emb flt ([], map rm_name own') st2 embs) as [acc st3]. exact G.
+  Qed.
+End Binding.
+
+(* every import line GetActive/ImportString produces binds exactly the alias used in the text *)
+Lemma import_binding real e specs priv emb t :
+  (forall p n, assoc (e_pkg_imports e) p = Some n -> n = real p) ->
+  (forall p, In (p, None) specs -> assoc (e_pkg_imports e) p <> None) ->
+  tree_truthful real t ->
+  forall i, In i (snd (find_interface e specs priv emb t)) -> bound_name real i = i_alias i.
+Proof.
+  intros He Hs Ht i Hi. unfold find_interface, to_iface in Hi.
+  pose proof (to_iface_binding real e He priv emb true t (calc_imports e specs)
+                (calc_imports_binding real e He specs Hs) Ht) as H.
+  destruct (to_iface_gen e priv emb true (calc_imports e specs) t) as [ms st]. simpl in *.
+  apply active_In in Hi as [Hi _]. apply H. assumption.
+Qed.
